@@ -6,6 +6,7 @@ import (
 	"context"
 	"errors"
 	"fmt"
+	"runtime"
 	"sort"
 	"strings"
 	"sync"
@@ -500,4 +501,32 @@ func DescribeJournal(j []JournalEntry, from int) string {
 		sb.WriteString(j[i].Label)
 	}
 	return fmt.Sprintf("[%s]", sb.String())
+}
+
+// SpinJitter returns a datastore yield hook (Disk.Yield) that makes about one goroutine in three a slow one:
+// each of its datastore operations first yields the processor n times (the others are not delayed at all), so
+// that of two goroutines that become runnable at the same instant sometimes the one with fewer steps arrives
+// last. No simulated time is spent (it could not be, under the locks the callers hold).
+func SpinJitter(n int64, salt uint64) func() {
+	return func() {
+		b := make([]byte, 64)
+		b = b[:runtime.Stack(b, false)]
+		var gid uint64
+		for _, c := range b[len("goroutine "):] {
+			if c < '0' || c > '9' {
+				break
+			}
+			gid = gid*10 + uint64(c-'0')
+		}
+		x := (gid + salt) * 0x9E3779B97F4A7C15
+		x ^= x >> 29
+		x *= 0xBF58476D1CE4E5B9
+		x ^= x >> 32
+		if x%3 != 0 {
+			return
+		}
+		for k := n; k > 0; k-- {
+			runtime.Gosched()
+		}
+	}
 }
